@@ -57,6 +57,10 @@ type C18Input struct {
 	// same size (the helper derives the binding id from the size and the
 	// target only): same expected behaviour as one call over all states
 	Split bool `json:"split,omitempty"`
+	// Decoy: a pipe of the same shape from the same source to a second target
+	// is bound before the judged one (fan-out); the judged pipe must behave as
+	// if it were alone
+	Decoy bool `json:"decoy,omitempty"`
 }
 
 type C18Obs struct {
@@ -239,7 +243,7 @@ type c18SrcTracer struct {
 }
 
 func (t *c18SrcTracer) HandlerStart(tx *am.Transition, emitter string, handler string) {
-	if strings.HasPrefix(emitter, "Bind") || emitter == "c18-flat" {
+	if (strings.HasPrefix(emitter, "Bind") && !strings.Contains(emitter, "c18-dcy")) || emitter == "c18-flat" {
 		t.starts.Add(1)
 	}
 }
@@ -306,6 +310,40 @@ func c18Exec(in *C18Input) *C18Obs {
 	var api am.Api = proxy
 
 	var err error
+	if in.Decoy && in.Variant != "flat" {
+		// fan-out: a pipe of the SAME shape from the same source to another
+		// target, bound first. It must not change what the judged pipe delivers
+		// (the helpers build their handler structs from identical field lists,
+		// so both bindings have the same Go type).
+		decoy := am.New(ctx, tschema, &am.Opts{Id: "c18-dcy", HandlerTimeout: 20 * time.Second})
+		defer decoy.Dispose()
+		switch in.Variant {
+		case "bind":
+			for i := 0; i < n && err == nil; i++ {
+				_, err = pipes.Bind(source, decoy, snames[i], tnames[i], "")
+			}
+		case "many":
+			if in.Split && n >= 2 {
+				h2 := n / 2
+				_, err = pipes.BindMany(source, decoy, snames[:h2], tnames[:h2])
+				if err == nil {
+					_, err = pipes.BindMany(source, decoy, snames[h2:n], tnames[h2:n])
+				}
+			} else {
+				_, err = pipes.BindMany(source, decoy, snames, tnames)
+			}
+		case "ready":
+			_, err = pipes.BindReady(source, decoy, tnames[0], "")
+		case "conn":
+			_, err = pipes.BindConnected(source, decoy, tnames[0], tnames[1], tnames[2], tnames[3])
+		case "err":
+			_, err = pipes.BindErr(source, decoy, "")
+		}
+		if err != nil {
+			obs.Err = "bind decoy: " + err.Error()
+			return obs
+		}
+	}
 	switch in.Variant {
 	case "bind":
 		for i := 0; i < n && err == nil; i++ {
@@ -726,6 +764,9 @@ func c18GenPipe(r *Rng, variant string, mode int) *C18Input {
 	default:
 		in.N = r.Range(1, 3)
 	}
+	if variant != "flat" && variant != "any" && r.Chance(35) {
+		in.Decoy = true
+	}
 	if variant == "many" && r.Chance(40) {
 		in.Split = true
 		in.N = []int{2, 2, 4}[r.Intn(3)]
@@ -867,6 +908,7 @@ func runC18(c *Ctx) error {
 		obs := c18Exec(in)
 		out.Count("variant", in.Variant)
 		out.Count("split_bindmany", fmt.Sprint(in.Split))
+		out.Count("decoy_fanout", fmt.Sprint(in.Decoy))
 		if in.Variant == "any" {
 			out.Count("any_ops", fmt.Sprint(len(in.AnyOps)))
 			same := fmt.Sprint(obs.AnySrc) == fmt.Sprint(obs.AnyTgt)
